@@ -1,0 +1,57 @@
+// Copyright 2021 TiKV Project Authors.
+//
+// Licensed under the Apache License, Version 2.0 (the "License");
+// you may not use this file except in compliance with the License.
+// You may obtain a copy of the License at
+//
+//     http://www.apache.org/licenses/LICENSE-2.0
+//
+// Unless required by applicable law or agreed to in writing, software
+// distributed under the License is distributed on an "AS IS" BASIS,
+// See the License for the specific language governing permissions and
+// limitations under the License.
+
+//go:build verif
+// +build verif
+
+package tso
+
+import (
+	"time"
+
+	"google.golang.org/grpc"
+)
+
+// VerifAllocatorUpdaterSync runs one round of allocatorUpdater on the calling
+// goroutine: the same filters, and the real updateAllocator body for every
+// selected allocator group, one after the other instead of one goroutine each.
+func (am *AllocatorManager) VerifAllocatorUpdaterSync() {
+	allocatorGroups := am.getAllocatorGroups(FilterUninitialized(), FilterUnavailableLeadership())
+	for _, ag := range allocatorGroups {
+		am.wg.Add(1)
+		am.updateAllocator(ag)
+	}
+}
+
+// VerifTSO returns the in-memory TSO and the cached saved window of an allocator (read-only).
+func VerifTSO(a Allocator) (physical time.Time, logical int64, lastSaved time.Time) {
+	var t *timestampOracle
+	switch x := a.(type) {
+	case *GlobalTSOAllocator:
+		t = x.timestampOracle
+	case *LocalTSOAllocator:
+		t = x.timestampOracle
+	default:
+		return
+	}
+	physical, logical = t.getTSO()
+	if v := t.lastSavedTime.Load(); v != nil {
+		lastSaved = v.(time.Time)
+	}
+	return
+}
+
+// VerifSetGRPCConn pre-seeds the connection cache used for PD-to-PD calls.
+func (am *AllocatorManager) VerifSetGRPCConn(addr string, conn *grpc.ClientConn) {
+	am.setGRPCConn(conn, addr)
+}
